@@ -1,6 +1,422 @@
 /-
-  Props.C05 — property theorems for C05 (block header / structure / commitment rules).
+  Props.C05 — property theorems for C05 (blocks violating header, structure or commitment rules are never
+  accepted). Theorems ONLY (helper lemmas live in GocoinV/Proofs/C05*.lean). Every theorem is about the
+  definitions of Model/{Target,Retarget,BlockCheck}.lean — the ones oracle_c05 executes and go/cmd/c05
+  compares with the real gocoin functions — and about the constants of Gen/ConsensusConsts.lean, which are
+  regenerated from the Go source on every run.
 -/
 import GocoinV.Model.BlockCheck
+import GocoinV.Spec.Merkle
+import GocoinV.Spec.ScriptNum
+import GocoinV.Proofs.C05Sort
+import GocoinV.Proofs.C05Merkle
+import GocoinV.Proofs.C05Script
+import GocoinV.Proofs.C05Block
+import GocoinV.Proofs.C05Compact
 namespace GocoinV.Props.C05
+open GocoinV GocoinV.Target GocoinV.Retarget GocoinV.BlockCheck GocoinV.Gen.ConsensusConsts
+
+/-- PreCheckBlock, decision logic stated outright: a header that passes (`err = ok`) is at least 80 bytes,
+    has a non-zero version, a hash that meets the target in its own `bits`, a time not more than
+    `maxFutureBlockTime` (2 h) ahead of the clock, is not yet known, has a known parent, is not a fork deeper
+    than the unwind limit, carries exactly the `bits` that GetNextWorkRequired demands after its parent, has a
+    time strictly above the parent's median-time-past, and a (signed) version permitted at its height; and the
+    call reports neither `dos` nor `maybelater` and leaves height = parent height + 1 and that MTP in the block. -/
+theorem precheck_sound (p : Params) (c : Consensus) (i : PreIn) (o : PreOut)
+    (h : preCheckBlock p c i = some o) (hok : o.err = .ok) :
+    preMinRawLen ≤ i.rawLen ∧ signedVersion i.ver ≠ forbiddenVersion ∧
+    checkProofOfWork i.hash i.bits = true ∧
+    (i.time : Int) ≤ i.now + maxFutureBlockTime ∧
+    i.known = none ∧
+    ∃ prev anc mtp, i.parent = some (prev :: anc) ∧
+      o.height = (prev.height + 1) % 2^32 ∧
+      (i.parentIsLast = true ∨ (i.lastHeight : Int) - (o.height : Int) < (forkDepthLimit : Int)) ∧
+      getNextWorkRequired p (prev :: anc) i.time = some i.bits ∧
+      getMedianTimePast (prev :: anc) = some mtp ∧ o.mtp = mtp ∧ mtp < i.time ∧
+      versionRejected c i.ver o.height = false ∧
+      o.dos = false ∧ o.maybelater = false := by
+  unfold preCheckBlock at h
+  split at h
+  · simp at h; subst h; simp at hok
+  split at h
+  · simp at h; subst h; simp at hok
+  split at h
+  · simp at h; subst h; simp at hok
+  split at h
+  · simp at h; subst h; simp at hok
+  split at h
+  · simp at h; subst h; simp at hok
+  · simp at h; subst h; simp at hok
+  split at h
+  · simp at h; subst h; simp at hok
+  · simp at h
+  rename_i hlen hver hpow htime _ hknown _ prev anc hpar
+  simp only at h
+  split at h
+  · simp at h; subst h; simp at hok
+  split at h
+  · simp at h
+  rename_i hdeep _ g hg
+  split at h
+  · simp at h; subst h; simp at hok
+  split at h
+  · simp at h
+  rename_i hbits _ mtp hmtp
+  split at h
+  · simp at h; subst h; simp at hok
+  split at h
+  · simp at h; subst h; simp at hok
+  rename_i hold hverrej
+  simp at h; subst h
+  dsimp only
+  refine ⟨by omega, hver, by simpa using hpow, by omega, by assumption, prev, anc, mtp, hpar, rfl, ?_, ?_, hmtp, rfl, by omega, by simpa using hverrej, rfl, rfl⟩
+  · cases hp : i.parentIsLast with
+    | true => left; rfl
+    | false => right; simp [hp] at hdeep; omega
+  · have : i.bits = g := by simpa using hbits
+    rw [hg, this]
+
+/-- non-vacuity of `precheck_sound`: a block on top of a one-block chain passes the model. -/
+example : ∃ o, preCheckBlock { maxPowBits := 0x207fffff, maxPowValue := setCompact 0x207fffff, testnet := false, testnet4 := false }
+    { bip34Height := 1, bip65Height := 1, bip66Height := 1, enforceCSV := 0, enforceSegwit := 0, enforceTaproot := 0 }
+    { rawLen := 285, ver := 4, hash := 12345, bits := 0x207fffff, time := 1000, now := 5000, known := none,
+      parent := some [{ height := 0, ts := 900, bits := 0x207fffff }], parentIsLast := true, lastHeight := 0 } = some o ∧ o.err = .ok := by
+  exact ⟨{ dos := false, maybelater := false, err := .ok, height := 1, mtp := 900 }, by decide, rfl⟩
+
+/-- PostCheckBlock, decision logic stated outright, for the way every caller that handles untrusted data enters
+    it (`bl.Txs == nil`, block not marked trusted): a block that passes is at least 81 bytes, parsed, weighs at
+    most `postMaxWeight` (= MAX_BLOCK_WEIGHT = 4,000,000 by `weight_limit_is_max_block_weight`), has exactly
+    its first transaction as coinbase, starts that coinbase's script with UintToScript(height) from BIP34Height
+    on, has the Merkle root of its header with the `mutated` flag clear, gets the flags of GetBlockFlags, has —
+    if the witness flag is on and the coinbase carries a commitment output (searched from the last output) — a
+    single 32-byte nonce and SHA256d(witness-root ‖ nonce) equal to the commitment, carries no witness data at
+    all otherwise, and every transaction passes CheckTransaction and IsFinal at (height, MTP or block time). -/
+theorem postcheck_sound (h : Bytes → Bytes) (c : Consensus) (i : PostIn) (f : Nat)
+    (hr : postCheckBlock h c i = some (.ok, f)) (hu : i.trusted = false) (hp : i.preParsed = false) :
+    postMinRawLen ≤ i.rawLen ∧ i.buildOk = true ∧ blockWeight i.txs ≤ postMaxWeight ∧
+    f = getBlockFlags c i.height i.time ∧
+    calcMerkle h (i.txs.map (·.txid)) = some (i.merkleRoot, false) ∧
+    ∃ cb rest, i.txs = cb :: rest ∧ cb.isCoinBase = true ∧ rest.any (·.isCoinBase) = false ∧
+      (c.bip34Height ≤ i.height → (uintToScript i.height).isPrefixOf cb.in0Script = true) ∧
+      (match (if f &&& VER_WITNESS ≠ 0 then findCommitment cb.outs.reverse else none) with
+       | some pk => ∃ nonce root, cb.segwit = some [[nonce]] ∧ nonce.length = witnessNonceLen ∧
+           witnessMerkle h i.txs = some root ∧ h (root ++ nonce) = (pk.drop witnessHeader.length).take 32
+       | none => i.txs.any (·.segwit.isSome) = false) ∧
+      checkTransactions i.txs i.height (if f &&& VER_CSV ≠ 0 then i.mtp else i.time) = [] := by
+  unfold postCheckBlock at hr
+  simp only [hu, hp, Bool.not_false, Bool.true_and, Bool.false_eq_true, ↓reduceIte] at hr
+  split at hr
+  · simp at hr
+  rename_i hlen
+  split at hr
+  · simp at hr
+  rename_i hbuild
+  split at hr
+  · simp at hr
+  rename_i hw
+  cases htxs : i.txs with
+  | nil => simp [htxs] at hr
+  | cons cb rest =>
+    simp only [htxs] at hr
+    by_cases hcb : cb.isCoinBase = true
+    · simp only [hcb, Bool.not_true, Bool.false_eq_true, ↓reduceIte] at hr
+      by_cases h34 : (decide (i.height ≥ c.bip34Height) && !(uintToScript i.height).isPrefixOf cb.in0Script) = true
+      · simp [h34] at hr
+      · simp only [h34, Bool.false_eq_true, ↓reduceIte] at hr
+        by_cases hm : rest.any (·.isCoinBase) = true
+        · simp [hm] at hr
+        · simp only [hm, Bool.false_eq_true, ↓reduceIte] at hr
+          generalize hmk : calcMerkle h _ = mk at hr
+          cases mk with
+          | none => simp at hr
+          | some rm =>
+            obtain ⟨root, mutated⟩ := rm
+            cases mutated with
+            | true => simp at hr
+            | false =>
+              simp only [Bool.false_eq_true, ↓reduceIte] at hr
+              by_cases hroot : (root != i.merkleRoot) = true
+              · simp [hroot] at hr
+              · simp only [hroot, Bool.false_eq_true, ↓reduceIte] at hr
+                cases hpw : postWitnessAndTxs h (getBlockFlags c i.height i.time) i with
+                | none => simp [hpw] at hr
+                | some e =>
+                  simp [hpw] at hr
+                  obtain ⟨he, hf⟩ := hr
+                  subst he hf
+                  obtain ⟨cb', rest', htx', hwit, hct⟩ := Proofs.C05.postWitnessAndTxs_ok h _ i hpw
+                  rw [htxs] at htx'
+                  injection htx' with h1 h2
+                  subst h1 h2
+                  have hroot' : root = i.merkleRoot := by simpa using hroot
+                  refine ⟨by omega, by simpa using hbuild, by simpa [htxs] using hw, rfl, by rw [hroot'], cb, rest, rfl, hcb, by simpa using hm, ?_, ?_, ?_⟩
+                  · intro hge
+                    simpa [hge] using h34
+                  · rw [← htxs]; exact hwit
+                  · rw [← htxs]; exact hct
+    · simp [hcb] at hr
+
+/-- the weight limit applied by PostCheckBlock is the constant MAX_BLOCK_WEIGHT of lib/btc/const.go, which is
+    4,000,000 (both regenerated from the source: an edit to either breaks this theorem). -/
+theorem weight_limit_is_max_block_weight : postMaxWeight = MAX_BLOCK_WEIGHT ∧ MAX_BLOCK_WEIGHT = 4000000 := by
+  decide
+
+/-- the literal limits named in the property statement, as they occur in the current source: 2..100-byte
+    coinbase script, two hours, 11-block median, 2016-block / two-week retarget with ¼ and 4× clamps,
+    80-byte header, 32-byte nonce, the BIP141 commitment header. -/
+theorem source_limits :
+    cbScriptMin = 2 ∧ cbScriptMax = 100 ∧ maxFutureBlockTime = 7200 ∧ MedianTimeSpan = 11 ∧
+    targetInterval = 2016 ∧ POWRetargetSpam = 1209600 ∧ retargetMinTimespan * 4 = POWRetargetSpam ∧
+    retargetMaxTimespan = POWRetargetSpam * 4 ∧ preMinRawLen = 80 ∧ witnessNonceLen = 32 ∧
+    witnessNonceStacks = 1 ∧ witnessNonceItems = 1 ∧ witnessCommitMinLen = 38 ∧
+    witnessHeader = [0x6a, 0x24, 0xaa, 0x21, 0xa9, 0xed] ∧ LOCKTIME_THRESHOLD = 500000000 ∧
+    minVersion_BIP34Height = 2 ∧ minVersion_BIP66Height = 3 ∧ minVersion_BIP65Height = 4 := by
+  decide
+
+/-- what "every transaction passes" means: CheckTransactions returns no error only if every transaction has
+    inputs and outputs, is not oversized, has output values and running totals within MAX_MONEY, has a
+    2..100-byte script if it is a coinbase and no null prevout otherwise, and is final. -/
+theorem tx_rules_sound (txs : List Tx) (height time : Nat) (h : checkTransactions txs height time = []) :
+    ∀ t ∈ txs, t.ins ≠ [] ∧ t.outs ≠ [] ∧ checkOutValues t.outValues 0 = none ∧
+      (t.isCoinBase = true → ∃ i rest, t.ins = i :: rest ∧ cbScriptMin ≤ i.scriptLen ∧ i.scriptLen ≤ cbScriptMax) ∧
+      (t.isCoinBase = false → t.ins.any (·.null) = false) ∧
+      isFinal t.lockTime (t.ins.map (·.seq)) height time = true := by
+  intro t ht
+  have h1 : checkOneTx t height time = none := by
+    unfold checkTransactions at h
+    rw [List.filterMap_eq_nil_iff] at h
+    exact h t ht
+  unfold checkOneTx at h1
+  split at h1
+  · simp at h1
+  rename_i hct
+  split at h1
+  · rename_i hfin
+    unfold checkTransaction at hct
+    split at hct; · simp at hct
+    rename_i hin
+    split at hct; · simp at hct
+    rename_i hout
+    split at hct; · simp at hct
+    split at hct; · simp at hct
+    rename_i hval
+    refine ⟨by intro hc; simp [hc] at hin, by intro hc; simp [hc] at hout, ?_, ?_, ?_, hfin⟩
+    · cases hv : checkOutValues t.outValues 0 with
+      | none => rfl
+      | some e => exact absurd hv (hval e)
+    · intro hcb
+      simp only [hcb, ↓reduceIte] at hct
+      split at hct
+      · rename_i i rest hins
+        split at hct
+        · simp at hct
+        · rename_i hl
+          exact ⟨i, rest, hins, by omega, by omega⟩
+      · rename_i hins; simp [hins] at hin
+    · intro hcb
+      simp only [hcb, Bool.false_eq_true, ↓reduceIte] at hct
+      split at hct
+      · simp at hct
+      · rename_i hn; simpa using hn
+  · simp at h1
+
+/-- GetMedianTimePast is the median of the last ≤ 11 timestamps: the value returned occurs among them, at most
+    ⌊n/2⌋ of them are strictly smaller and more than ⌊n/2⌋ of them are ≤ it (n = number collected). -/
+theorem mtp_is_median (chain : List Node) (m : Nat) (h : getMedianTimePast chain = some m) :
+    let l := lastTimes chain
+    l = (chain.take MedianTimeSpan).map (·.ts) ∧ l.length ≤ 11 ∧
+    m ∈ l ∧ l.countP (· < m) ≤ l.length / 2 ∧ l.length / 2 < l.countP (· ≤ m) := by
+  intro l
+  refine ⟨rfl, ?_, Proofs.C05.median_spec l m h⟩
+  simp [l, lastTimes, MedianTimeSpan]
+  omega
+
+/-- non-vacuity of `mtp_is_median` -/
+example : getMedianTimePast [⟨3, 50, 0⟩, ⟨2, 70, 0⟩, ⟨1, 60, 0⟩] = some 60 := by decide
+
+/-- GetMedianTimePast is total on every non-nil node (no panic). -/
+theorem mtp_total (n : Node) (anc : List Node) : ∃ m, getMedianTimePast (n :: anc) = some m := by
+  unfold getMedianTimePast
+  have hl : (isort (lastTimes (n :: anc))).length = (lastTimes (n :: anc)).length :=
+    (Proofs.C05.isort_perm _).length_eq
+  have hpos : 0 < (lastTimes (n :: anc)).length := by simp [lastTimes, MedianTimeSpan]
+  have : (lastTimes (n :: anc)).length / 2 < (isort (lastTimes (n :: anc))).length := by omega
+  exact ⟨_, List.getElem?_eq_getElem this⟩
+
+/-- The `mutated` flag of CalcMerkle is raised exactly when some level of the tree (leaves included, root
+    excluded) has two equal nodes at the two distinct positions 2j, 2j+1 that are hashed together — the
+    CVE-2012-2459 test of Bitcoin Core — and the returned root is the iterated pairwise hash. -/
+theorem merkle_mutation_iff (h : Bytes → Bytes) (l : List Bytes) (r : Bytes) (m : Bool)
+    (hc : calcMerkle h l = some (r, m)) :
+    (m = true ↔ ∃ lv ∈ Spec.Merkle.levels h l.length l, ∃ j, 2 * j + 1 < lv.length ∧ lv[2 * j]? = lv[2 * j + 1]?) ∧
+    (Spec.Merkle.root h l.length l).head? = some r := by
+  unfold calcMerkle at hc
+  rw [Proofs.C05.calcMerkleLoop_eq] at hc
+  simp only [Bool.false_or] at hc
+  split at hc
+  · rename_i r' tl m' heq
+    simp only [Option.some.injEq, Prod.mk.injEq] at hc
+    obtain ⟨hr, hm⟩ := hc
+    simp only [Prod.mk.injEq] at heq
+    obtain ⟨h1, h2⟩ := heq
+    subst hr hm
+    constructor
+    · rw [← h2, List.any_eq_true]
+      constructor
+      · rintro ⟨lv, hlv, hp⟩
+        exact ⟨lv, hlv, (Proofs.C05.hasEqualPair_iff lv).mp hp⟩
+      · rintro ⟨lv, hlv, hp⟩
+        exact ⟨lv, hlv, (Proofs.C05.hasEqualPair_iff lv).mpr hp⟩
+    · rw [h1]; rfl
+  · simp at hc
+
+/-- non-vacuity / CVE-2012-2459 on the model: [a,b,c] and [a,b,c,c] have the same root, only the second is flagged. -/
+example : (calcMerkle (fun x => x.take 1) [[1], [2], [3]]).map (·.2) = some false ∧
+    (calcMerkle (fun x => x.take 1) [[1], [2], [3], [3]]).map (·.2) = some true := by decide
+
+/-- BIP34: for every height below 2^32, `script.UintToScript(n)` is exactly `CScript() << n` of the reference
+    client (OP_0, OP_1..OP_16, or a minimal little-endian push with a sign-guard byte). -/
+theorem uintToScript_eq_cscript_push (n : Nat) (h : n < 2^32) :
+    uintToScript n = Spec.ScriptNum.cscriptPush n :=
+  Proofs.C05.u2s_all n h
+
+/-- non-vacuity: heights 0, 16, 17, 128, 32768 and the current mainnet range -/
+example : uintToScript 0 = [0] ∧ uintToScript 16 = [0x60] ∧ uintToScript 17 = [1, 17] ∧ uintToScript 128 = [2, 128, 0] ∧
+    uintToScript 32768 = [3, 0, 128, 0] ∧ uintToScript 840000 = [3, 0x40, 0xd1, 0x0c] := by decide
+
+/-- Compact round trip: for every canonical compact value `c` (see `Target.Canonical`: sign bit clear; zero, or
+    size ≥ 1 with a mantissa whose top byte is non-zero and no bits below the byte precision for sizes 1, 2),
+    `GetCompact(SetCompact(c)) = c`. -/
+theorem compact_roundtrip (c : Nat) (hc : Canonical c) : getCompact (setCompact c) = c :=
+  Proofs.C05.compact_roundtrip_aux c hc
+
+/-- non-vacuity: the mainnet and regtest limits are canonical, a negative and a non-minimal encoding are not -/
+example : Canonical 0x1d00ffff ∧ Canonical 0x207fffff ∧ Canonical 0x02008000 ∧ ¬ Canonical 0x1d80ffff ∧ ¬ Canonical 0x04000001 := by decide
+
+/-- What GetNextWorkRequired can demand: `GetCompact` of any positive target below 2^256 is a canonical 32-bit
+    value (so the round trip applies to it) that the reference client reads as neither negative nor overflowing. -/
+theorem getCompact_is_canonical (t : Int) (h0 : 0 < t) (hlt : t < 2^256) :
+    Canonical (getCompact t) ∧ coreNegative (getCompact t) = false ∧ coreOverflow (getCompact t) = false := by
+  obtain ⟨e, p, l, _⟩ := Proofs.C05.getCompact_pos t h0 hlt
+  rw [e]
+  exact ⟨Proofs.C05.getCompactNat_canonical _ p l, (Proofs.C05.getCompactNat_not_edge _ p l).2⟩
+
+/-- Edge encodings of the compact target cannot get a block accepted:
+    (1) an encoding the reference client reads as negative fails CheckProofOfWork for every hash;
+    (2) an encoding of the value zero passes CheckProofOfWork only for the hash 0;
+    (3) whenever `bits` equals the required bits `GetCompact(t)` of a target 0 < t < 2^256 (what PreCheckBlock
+        demands through `bits = GetNextWorkRequired`), it is neither negative nor overflowing, its target is
+        positive and at most t, and a hash passing CheckProofOfWork is at most t. -/
+theorem pow_target_edge (hash bits : Nat) :
+    (coreNegative bits = true → checkProofOfWork hash bits = false) ∧
+    (setCompact bits = 0 → checkProofOfWork hash bits = true → hash = 0) ∧
+    (∀ t : Int, 0 < t → t < 2^256 → bits = getCompact t →
+      coreNegative bits = false ∧ coreOverflow bits = false ∧ 0 < setCompact bits ∧ setCompact bits ≤ t ∧
+      (checkProofOfWork hash bits = true → (hash : Int) ≤ t)) := by
+  refine ⟨?_, ?_, ?_⟩
+  · intro hn
+    have := Proofs.C05.setCompact_neg_of_coreNegative bits hn
+    unfold checkProofOfWork
+    apply decide_eq_false
+    omega
+  · intro hz hp
+    unfold checkProofOfWork at hp
+    rw [hz] at hp
+    have := of_decide_eq_true hp
+    omega
+  · intro t h0 hlt hb
+    obtain ⟨e, p, l, et⟩ := Proofs.C05.getCompact_pos t h0 hlt
+    have h1 := Proofs.C05.getCompactNat_not_edge _ p l
+    have h2 := Proofs.C05.setCompact_getCompactNat_le _ p l
+    rw [← e, ← hb] at h1 h2
+    rw [et] at h2
+    refine ⟨h1.2.1, h1.2.2, h2.1, h2.2, ?_⟩
+    intro hp
+    unfold checkProofOfWork at hp
+    have := of_decide_eq_true hp
+    omega
+
+/-- Retargeting: the timespan used is clamped to [T/4, 4T] (and unchanged inside); with a pow limit
+    0 < L < 2^256 and a non-negative previous target the new bits decode to at most L; and when
+    previous target × 4T < 2^256 (true for every target ≤ L on mainnet/testnet, `mainnet_no_overflow`) the
+    result equals Bitcoin Core's computation with 256-bit wrap-around multiplication. -/
+theorem retarget_clamp (maxPow : Int) (base : Nat) (span : Int) :
+    ((retargetMinTimespan : Int) ≤ clampTimespan span ∧ clampTimespan span ≤ (retargetMaxTimespan : Int)) ∧
+    ((retargetMinTimespan : Int) ≤ span → span ≤ (retargetMaxTimespan : Int) → clampTimespan span = span) ∧
+    (0 < maxPow → maxPow < 2^256 → 0 ≤ setCompact base →
+       setCompact (retarget maxPow base span) ≤ maxPow ∧
+       (setCompact base * (retargetMaxTimespan : Int) < 2^256 →
+          retarget maxPow base span =
+            getCompact (let p := (setCompact base * clampTimespan span) % 2^256 / (POWRetargetSpam : Int)
+                        if p > maxPow then maxPow else p))) := by
+  have hc : (retargetMinTimespan : Int) ≤ clampTimespan span ∧ clampTimespan span ≤ (retargetMaxTimespan : Int) := by
+    unfold clampTimespan
+    have : (retargetMinTimespan : Int) ≤ (retargetMaxTimespan : Int) := by decide
+    simp only
+    split <;> split <;> omega
+  refine ⟨hc, ?_, ?_⟩
+  · intro h1 h2
+    unfold clampTimespan
+    simp only
+    split <;> split <;> omega
+  · intro hm0 hm1 hb
+    have hpos : (0 : Int) < (POWRetargetSpam : Int) := by decide
+    have hmin : (0 : Int) ≤ (retargetMinTimespan : Int) := by decide
+    have hprod : 0 ≤ setCompact base * clampTimespan span := Int.mul_nonneg hb (by omega)
+    have hx : 0 ≤ setCompact base * clampTimespan span / (POWRetargetSpam : Int) := Int.ediv_nonneg hprod (by omega)
+    constructor
+    · unfold retarget
+      simp only
+      generalize setCompact base * clampTimespan span / (POWRetargetSpam : Int) = x at hx ⊢
+      by_cases hgt : x > maxPow
+      · simp only [hgt, ↓reduceIte]
+        obtain ⟨e, p, l, et⟩ := Proofs.C05.getCompact_pos maxPow hm0 hm1
+        have := Proofs.C05.setCompact_getCompactNat_le _ p l
+        rw [← e, et] at this
+        exact this.2
+      · simp only [hgt, ↓reduceIte]
+        by_cases hx0 : x = 0
+        · subst hx0
+          have : setCompact (getCompact 0) = 0 := by decide
+          omega
+        · obtain ⟨e, p, l, et⟩ := Proofs.C05.getCompact_pos x (by omega) (by omega)
+          have := Proofs.C05.setCompact_getCompactNat_le _ p l
+          rw [← e, et] at this
+          omega
+    · intro hov
+      unfold retarget
+      have hle : setCompact base * clampTimespan span ≤ setCompact base * (retargetMaxTimespan : Int) :=
+        Int.mul_le_mul_of_nonneg_left hc.2 hb
+      have : (setCompact base * clampTimespan span) % 2^256 = setCompact base * clampTimespan span :=
+        Int.emod_eq_of_lt hprod (by omega)
+      rw [this]
+
+/-- on mainnet and testnet the pow limit times the largest timespan stays below 2^256, so the 256-bit
+    arithmetic of the reference client never wraps for a target ≤ pow limit -/
+theorem mainnet_no_overflow : (MaxPOWValue : Int) * (retargetMaxTimespan : Int) < 2^256 ∧
+    setCompact mainnet_MaxPOWBits ≤ (MaxPOWValue : Int) ∧ mainnet_MaxPOWBits = testnet3_MaxPOWBits ∧
+    mainnet_MaxPOWBits = testnet4_MaxPOWBits := by decide
+
+/-- non-vacuity of `retarget_clamp` / `pow_target_edge`: two weeks exactly keep the mainnet limit, a quarter
+    of the time divides the target by four, and the result is what GetCompact gives for its own target -/
+example : retarget MaxPOWValue 0x1d00ffff 1209600 = 0x1d00ffff ∧ retarget MaxPOWValue 0x1d00ffff 1 = 0x1c3fffc0 ∧
+    getCompact (setCompact 0x1c3fffc0) = 0x1c3fffc0 := by decide
+
+/-- GetNextWorkRequired at a retarget height (not testnet4): the previous block's bits, the time between the
+    previous block and the one 2015 blocks before it, through `retarget`. -/
+theorem gnwr_at_retarget (p : Params) (lst : Node) (m : Node) (anc : List Node) (ts : Nat) (first : Node)
+    (hh : ((lst.height + 1) % 2^32) % targetInterval = 0)
+    (hf : (lst :: m :: anc)[targetInterval - 1]? = some first) (hnet : p.testnet4 = false) :
+    getNextWorkRequired p (lst :: m :: anc) ts =
+      some (retarget p.maxPowValue lst.bits ((lst.ts : Int) - (first.ts : Int))) := by
+  unfold getNextWorkRequired
+  simp [hh, hf, hnet]
+
+/-- GetNextWorkRequired away from a retarget height on mainnet: the previous block's bits. -/
+theorem gnwr_off_retarget_mainnet (p : Params) (lst : Node) (m : Node) (anc : List Node) (ts : Nat)
+    (hh : ((lst.height + 1) % 2^32) % targetInterval ≠ 0) (hnet : p.testnet = false) :
+    getNextWorkRequired p (lst :: m :: anc) ts = some lst.bits := by
+  unfold getNextWorkRequired
+  simp [hh, hnet]
+
 end GocoinV.Props.C05
